@@ -655,6 +655,12 @@ def call(f, args=(), kws=()):
     if f == G('np.diff') and len(args) == 1 and len(kws) == 1 and kws[0][0] == 'kw' and kws[0][1] in ('append', 'prepend'):
         parts = (args[0], kws[0][2]) if kws[0][1] == 'append' else (kws[0][2], args[0])
         return ('call', f, (_cat(parts),), ())
+    # functools.reduce(f, iter(xs), init) folds xs  (a bare `reduce` is functools.reduce: Python 3 has no other)
+    if f == G('reduce'):
+        f = G('functools.reduce')
+    if f == G('functools.reduce') and nokw and len(args) in (2, 3) and args[1][0] == 'call' and args[1][1] == G('iter') \
+            and len(args[1][2]) == 1 and not args[1][3]:
+        args = (args[0], args[1][2][0]) + tuple(args[2:])
     # np.append(a, b) concatenates
     if f == G('np.append') and nokw and len(args) == 2:
         return _cat((args[0], args[1]))
